@@ -244,9 +244,16 @@ class FieldData:
         self._datatype.pop(fieldname, None)
     else:
       if self.vlevel >= 3:
+        had_datatype = fieldname in self._datatype
         self._field_or_default_datatype(fieldname, value)
-        gfapy.Field._validate_gfa_field(value, self._field_datatype(fieldname),
-            fieldname)
+        try:
+          gfapy.Field._validate_gfa_field(value,
+              self._field_datatype(fieldname), fieldname)
+        except:
+          if not had_datatype:
+            # (the default datatype of a refused value is not kept)
+            self._datatype.pop(fieldname, None)
+          raise
       self._data[fieldname] = value
     if renaming_connected:
       self._gfa._register_line(self)
